@@ -12,6 +12,8 @@ import (
 	"os"
 	"sort"
 	"strings"
+	"sync"
+	"sync/atomic"
 	"time"
 
 	"github.com/go-logr/logr"
@@ -558,6 +560,24 @@ func (rn *runner) history(seedDesc string, nOps int) {
 	if !deltaFirst {
 		popts = []sdk.Option{sdk.WithReader(cumR), sdk.WithReader(deltaR)}
 	}
+	// in half of the histories a third reader whose aggregation selector DROPS every observable kind:
+	// it has no aggregator for those instruments but still runs the registered callbacks when it
+	// collects; its collections (at random points, not part of the history given to Coq) must leave the
+	// other readers' streams alone
+	var dropR *sdk.ManualReader
+	if r.Bool() {
+		dropR = sdk.NewManualReader(sdk.WithAggregationSelector(func(k sdk.InstrumentKind) sdk.Aggregation {
+			switch k {
+			case sdk.InstrumentKindObservableCounter, sdk.InstrumentKindObservableUpDownCounter, sdk.InstrumentKindObservableGauge:
+				return sdk.AggregationDrop{}
+			}
+			return sdk.DefaultAggregationSelector(k)
+		}))
+		popts = append(popts, sdk.WithReader(dropR))
+		if r.Bool() { // registered first, in the middle or last
+			popts[0], popts[len(popts)-1] = popts[len(popts)-1], popts[0]
+		}
+	}
 	for i, k := range kinds {
 		if k == kHistNS {
 			popts = append(popts, sdk.WithView(sdk.NewView(
@@ -880,6 +900,20 @@ func (rn *runner) history(seedDesc string, nOps int) {
 			}
 			terms = append(terms, vgen.App("Un", vgen.N(uint64(id))))
 			descOps = append(descOps, fmt.Sprintf("unregister cb%d", id))
+		case !last && c >= 94 && dropR != nil:
+			// the reader that drops the observable kinds collects (callbacks run with the last cycle's script)
+			var rm metricdata.ResourceMetrics
+			_ = dropR.Collect(ctx, &rm)
+			for _, sm := range rm.ScopeMetrics {
+				for _, m := range sm.Metrics {
+					for _, i := range asyncIdx {
+						if m.Name == rn.insts[i].name {
+							w.Violation("a reader whose aggregation selector drops observable instruments reported one", seedDesc)
+						}
+					}
+				}
+			}
+			w.Tally("collect:by the reader that drops observables")
 		case last || c >= 70:
 			// a cycle: what every callback ever created would observe now
 			script = nil
@@ -1341,6 +1375,128 @@ func (rn *runner) expoHistory(desc string) {
 		map[string]any{"history": desc, "max_size": maxSize, "max_scale": maxScale, "float": float, "cycles": descC}, "expo-rescaling", nCycles >= 2)
 }
 
+// ---- overlapping Collect calls on the SAME reader while a callback is in flight ----
+
+// overlappingCollects: the pipeline lock is held while the callbacks of a collection run, so a second
+// Collect on the same reader waits; each collection reports exactly what ITS callbacks observed.  The
+// callback of the first collection waits (with a timeout that simply elapses on correct code) for a
+// second collection's callback to show up, and lets it observe too before the first one aggregates.
+func overlappingCollects(w *vgen.Writer, r *vgen.Rand, desc string, delta, creation bool) {
+	sel := allCum
+	if delta {
+		sel = allDelta
+	}
+	rd := sdk.NewManualReader(sdk.WithTemporalitySelector(sel))
+	other := sdk.NewManualReader()
+	mp := sdk.NewMeterProvider(sdk.WithReader(rd), sdk.WithReader(other))
+	ctx := context.Background()
+	defer mp.Shutdown(ctx)
+	meter := mp.Meter("verif/c08/overlap")
+	const wait = 250 * time.Millisecond
+	V := int64(r.Range(1, 50))
+	var armed atomic.Bool
+	var entered atomic.Int32
+	firstIn, secondIn := make(chan struct{}), make(chan struct{})
+	firstDone, secondDone := make(chan struct{}), make(chan struct{})
+	body := func(observe func(int64)) {
+		if armed.Load() {
+			switch entered.Add(1) {
+			case 1:
+				close(firstIn)
+				select {
+				case <-secondIn: // only possible if the callbacks of two collections of this reader overlap
+				case <-time.After(wait):
+				}
+				observe(V)
+				close(firstDone)
+				select {
+				case <-secondDone:
+				case <-time.After(wait):
+				}
+				return
+			case 2:
+				close(secondIn)
+				select {
+				case <-firstDone:
+				case <-time.After(wait):
+				}
+				observe(V)
+				close(secondDone)
+				return
+			}
+		}
+		observe(V)
+	}
+	var err error
+	if creation {
+		_, err = meter.Int64ObservableCounter("oc", metric.WithInt64Callback(func(_ context.Context, o metric.Int64Observer) error {
+			body(func(v int64) { o.Observe(v) })
+			return nil
+		}))
+	} else {
+		var oc metric.Int64ObservableCounter
+		oc, err = meter.Int64ObservableCounter("oc")
+		if err == nil {
+			_, err = meter.RegisterCallback(func(_ context.Context, o metric.Observer) error {
+				body(func(v int64) { o.ObserveInt64(oc, v) })
+				return nil
+			}, oc)
+		}
+	}
+	if err != nil {
+		w.Violation("setup failed: "+err.Error(), desc)
+		return
+	}
+	val := func(rm *metricdata.ResourceMetrics) (int64, int) {
+		n, v := 0, int64(0)
+		for _, sm := range rm.ScopeMetrics {
+			for _, m := range sm.Metrics {
+				if s, ok := m.Data.(metricdata.Sum[int64]); ok {
+					for _, p := range s.DataPoints {
+						n++
+						v += p.Value
+					}
+				}
+			}
+		}
+		return v, n
+	}
+	var a, b metricdata.ResourceMetrics
+	armed.Store(true)
+	var wg sync.WaitGroup
+	wg.Add(2)
+	go func() { defer wg.Done(); _ = rd.Collect(ctx, &a) }()
+	select {
+	case <-firstIn:
+	case <-time.After(60 * time.Second):
+		return // inconclusive
+	}
+	go func() { defer wg.Done(); _ = rd.Collect(ctx, &b) }()
+	done := make(chan struct{})
+	go func() { wg.Wait(); close(done) }()
+	select {
+	case <-done:
+	case <-time.After(120 * time.Second):
+		w.Violation("two Collect calls on one reader did not return within 120 s", desc)
+		return
+	}
+	armed.Store(false)
+	va, na := val(&a)
+	vb, nb := val(&b)
+	w.Tally("overlapping Collect calls on one reader")
+	// every cycle's callbacks observed V once: cumulative view V and V; delta view V then 0
+	ok := na == 1 && nb == 1
+	if delta {
+		ok = ok && va+vb == V && (va == V || vb == V)
+	} else {
+		ok = ok && va == V && vb == V
+	}
+	if !ok {
+		w.Violation(fmt.Sprintf("overlapping Collect calls on one reader (delta=%v, creation-time callback=%v): each cycle's callback observed %d once, "+
+			"the two collections reported %d (%d points) and %d (%d points)", delta, creation, V, va, na, vb, nb), desc)
+	}
+}
+
 // ---- many distinct attribute sets over an instrument's lifetime, no cardinality limit configured ----
 
 // largeCardinality: cycles of fresh attribute sets (value 1 each, some sets recorded again) on one
@@ -1490,6 +1646,17 @@ func main() {
 				}
 			}()
 			rn.history(desc, nOps)
+		}()
+	}
+	for i := 0; i < o.Count(2, 8); i++ {
+		desc := fmt.Sprintf("seed=%d overlapping-collects=%d", o.Seed, i)
+		func() {
+			defer func() {
+				if e := recover(); e != nil {
+					w.Violation(fmt.Sprintf("panic: %v", e), desc)
+				}
+			}()
+			overlappingCollects(w, r.Fork(), desc, i%2 == 0, (i/2)%2 == 0 != (o.Seed%2 == 0))
 		}()
 	}
 	nBig := o.Count(1, 4)
